@@ -304,6 +304,7 @@ def child_main(cases):
     for case in cases:
         mark("BEGIN " + case["name"])
         signal.alarm(CASE_LIMIT_S)
+        t0 = time.time()
         try:
             rec = child_case(case)
         except (KeyboardInterrupt, SystemExit):
@@ -313,6 +314,7 @@ def child_main(cases):
             rec = {"name": case["name"], "entry": case["entry"], "labels": {}, "mismatch": [],
                    "driver_error": "%r | %s" % (e, traceback.format_exc()[-500:])}
         signal.alarm(0)
+        rec["t"] = round(time.time() - t0, 4)
         mark("END " + case["name"])
         real_out.write(json.dumps(rec) + "\n")
         real_out.flush()
@@ -486,6 +488,16 @@ def parent_main(args, only=None):
     with ThreadPoolExecutor(max_workers=WORKERS) as ex:
         results = list(ex.map(run_batch, batches))
     harness_errors = []
+    if os.environ.get("C20_PROFILE"):
+        prof = {}
+        for recs in results:
+            for r in recs:
+                if "t" in r:
+                    e = prof.setdefault(r["entry"], [0, 0.0])
+                    e[0] += 1
+                    e[1] += r["t"]
+        for k, (n, t) in sorted(prof.items(), key=lambda kv: -kv[1][1]):
+            sys.stderr.write("%8.2fs %5d  %s\n" % (t, n, k))
     for recs in results:
         for r in recs:
             if "harness_error" in r:
@@ -830,7 +842,7 @@ def _e_rewire(p, mk, rng, ctx):
     if it > 0:
         edges = np.array(net.graph.get_edgelist()).reshape(-1, 2)
         deg = net.degree() if p["model"] == "III" else None
-        if p["dD"] == 0 and not _rewire_feasible(np.asarray(net.adjacency), edges, deg):
+        if not _rewire_feasible(np.asarray(net.adjacency), edges, deg):
             it = 0
     label = "SpatialNetwork.randomly_rewire_geomodel_" + p["model"]
     r = ctx.call(label, getattr(net, "randomly_rewire_geomodel_" + p["model"]), D, it, 1e9)
@@ -1111,3 +1123,368 @@ def _e_gnn(p, mk, rng, ctx):
     xyz = np.array([int(c) for c in p["xyz"]])
     ctx.call("CouplingAnalysis.get_nearest_neighbors", funcnet.CouplingAnalysis.get_nearest_neighbors,
              array=arr, xyz=xyz, k=p["k"], standardize=p["std"])
+
+
+# ----------------------------------------------------------------------------- timeseries
+
+def _series(rng, T, d, dt, fl="rand", nan_at=()):
+    a = gen(rng, (T,) if d == 0 else (T, d), dt, fl)
+    if len(nan_at) and a.dtype.kind == "f" and T:
+        for i in nan_at:
+            if i < T:
+                a[i] = np.nan
+    return a
+
+
+RP_MODES = (("threshold", 0.8), ("threshold", 0.0), ("threshold_std", 0.5), ("recurrence_rate", 0.3),
+            ("local_recurrence_rate", 0.3), ("adaptive_neighborhood_size", 2))
+
+
+def g_rp(tier, rng):
+    ds = dims(tier, rng)
+    for T in ds:
+        for d in (0, 1, 2, 3):
+            for mi, (mode, val) in enumerate(RP_MODES):
+                if tier == "quick" and d in (1, 3) and mi not in (0, 5):
+                    continue
+                yield {"T": T, "d": d, "mode": mode, "val": val, "metric": ("supremum", "euclidean", "manhattan")[mi % 3],
+                       "dt": "float64"}
+    r = ds[4]
+    for metric in ("supremum", "euclidean", "manhattan"):
+        for T in (1, 2, 3, r):
+            for dim, tau in ((1, 1), (2, 1), (3, 2), (2, 0), (0, 1), (3, T), (T + 1, 1)):
+                yield {"T": T, "d": 0, "mode": "threshold", "val": 0.8, "metric": metric, "dt": "float64",
+                       "dim": dim, "tau": tau}
+    for T in (0, 1, 2, 3, r):
+        for mv in (True,):
+            for sp in (False, True):
+                yield {"T": T, "d": 0, "mode": "threshold", "val": 0.8, "metric": "supremum", "dt": "float64",
+                       "mv": mv, "sparse": sp, "nan": [1, T - 1]}
+                yield {"T": T, "d": 2, "mode": "threshold", "val": 0.8, "metric": "supremum", "dt": "float64",
+                       "mv": mv, "sparse": sp, "nan": []}
+        yield {"T": T, "d": 0, "mode": "threshold", "val": 0.8, "metric": "supremum", "dt": "float64",
+               "sparse": True}
+        yield {"T": T, "d": 0, "mode": "recurrence_rate", "val": 0.3, "metric": "supremum", "dt": "float64",
+               "mv": True, "nan": [0]}
+        yield {"T": T, "d": 0, "mode": "adaptive_neighborhood_size", "val": T + 2, "metric": "supremum",
+               "dt": "float64"}
+        yield {"T": T, "d": 0, "mode": "threshold", "val": 0.8, "metric": "supremum", "dt": "float64", "norm": True}
+    for dt in DTS[1:]:
+        yield {"T": r, "d": 2, "mode": "threshold", "val": 0.8, "metric": "supremum", "dt": dt}
+    for fl in ("const", "ties", "big"):
+        yield {"T": r, "d": 0, "mode": "adaptive_neighborhood_size", "val": 2, "metric": "supremum",
+               "dt": "float64", "fl": fl}
+        yield {"T": r, "d": 0, "mode": "threshold", "val": 0.8, "metric": "supremum", "dt": "float64", "fl": fl}
+
+
+@entry("RecurrencePlot", g_rp)
+def _e_rp(p, mk, rng, ctx):
+    from pyunicorn import timeseries
+    ts = mk(_series(rng, p["T"], p["d"], p["dt"], p.get("fl", "rand"), p.get("nan", ())))
+    kw = {p["mode"]: p["val"]}
+    if "dim" in p:
+        kw.update(dim=p["dim"], tau=p["tau"])
+    rp = ctx.call("RecurrencePlot.__init__[%s]" % p["mode"], timeseries.RecurrencePlot, ts, metric=p["metric"],
+                  normalize=p.get("norm", False), missing_values=p.get("mv", False),
+                  sparse_rqa=p.get("sparse", False), silence_level=3, **kw)
+    if rp is FAILED:
+        return
+    ctx.call("RecurrencePlot.recurrence_matrix", rp.recurrence_matrix)
+    for m in ("diagline_dist", "vertline_dist", "white_vertline_dist", "recurrence_rate", "rqa_summary"):
+        ctx.call("RecurrencePlot." + m, getattr(rp, m))
+    for M in (0, 5):
+        ctx.call("RecurrencePlot.resample_diagline_dist", rp.resample_diagline_dist, M)
+        ctx.call("RecurrencePlot.resample_vertline_dist", rp.resample_vertline_dist, M)
+    for md in (0, 1, 7, -2):
+        ctx.call("RecurrencePlot.twins", rp.twins, min_dist=md)
+    ctx.call("RecurrencePlot.twin_surrogates", rp.twin_surrogates, n_surrogates=2, min_dist=1)
+    ctx.call("RecurrencePlot.twin_surrogates", rp.twin_surrogates, n_surrogates=0, min_dist=0)
+
+
+def g_rp_setters(tier, rng):
+    for T in dims(tier, rng):
+        for what in ("R-small", "R-big", "R-rect", "R-int64", "R-bool", "R-float", "emb-short", "emb-long",
+                     "emb-wide", "order-perm", "order-oob", "order-neg", "order-short", "order-long",
+                     "mv-short", "mv-long"):
+            yield {"T": T, "what": what}
+
+
+@entry("RecurrencePlot(public attributes replaced)", g_rp_setters)
+def _e_rp_setters(p, mk, rng, ctx):
+    """R, embedding and missing_value_indices are public attributes / setters; order is an argument."""
+    from pyunicorn import timeseries
+    T, what = p["T"], p["what"]
+    ts = mk(_series(rng, T, 0, "float64"))
+    mv = what.startswith("mv")
+    rp = ctx.call("RecurrencePlot.__init__[threshold]", timeseries.RecurrencePlot, ts, threshold=0.8,
+                  missing_values=mv, silence_level=3)
+    if rp is FAILED:
+        return
+    if what.startswith("order"):
+        order = {"order-perm": rng.permutation(T), "order-oob": np.arange(T) + 1, "order-neg": np.arange(T) - 1,
+                 "order-short": np.arange(max(T - 1, 0)), "order-long": np.arange(T + 2) % max(T, 1)}[what]
+        ctx.call("RecurrencePlot.set_adaptive_neighborhood_size", rp.set_adaptive_neighborhood_size, 2,
+                 order=mk(order))
+        ctx.call("RecurrencePlot.recurrence_matrix", rp.recurrence_matrix)
+        return
+    if what.startswith("R-"):
+        n = {"R-small": max(T - 1, 0), "R-big": T + 2}.get(what, T)
+        R = gen(rng, (n, n - 1 if what == "R-rect" and n else n), "bool")
+        R = R.astype({"R-int64": "int64", "R-bool": "bool", "R-float": "float64"}.get(what, "int8"))
+        ctx.call("RecurrencePlot.R=", setattr, rp, "R", mk(R))
+    elif what.startswith("emb"):
+        shape = {"emb-short": (max(T - 1, 0), 1), "emb-long": (T + 2, 1), "emb-wide": (T, 3)}[what]
+        ctx.call("RecurrencePlot.embedding=", setattr, rp, "embedding", mk(gen(rng, shape, "float64")))
+        rp.sparse_rqa = what == "emb-wide"
+    else:
+        n = max(T - 1, 0) if what == "mv-short" else T + 2
+        rp.missing_value_indices = mk(gen(rng, (n,), "bool"))
+    for m in ("diagline_dist", "vertline_dist", "white_vertline_dist", "recurrence_rate"):
+        ctx.call("RecurrencePlot." + m, getattr(rp, m))
+    ctx.call("RecurrencePlot.twins", rp.twins, min_dist=0)
+    ctx.call("RecurrencePlot.twin_surrogates", rp.twin_surrogates, n_surrogates=1, min_dist=0)
+
+
+def g_rp_static(tier, rng):
+    for T in dims(tier, rng):
+        for dim in (0, 1, 2, 3):
+            for tau in (0, 1, 2, -1):
+                yield {"f": "embed", "T": T, "dim": dim, "tau": tau, "dt": "float64", "col": tau == 1}
+        for d in (0, 1, 2, 3):
+            for M in (0, 1, 4):
+                yield {"f": "boot", "T": T, "d": d, "M": M, "metric": ("supremum", "euclidean", "manhattan")[d % 3],
+                       "dt": "float64"}
+        for M in (0, 1, 5):
+            yield {"f": "rej", "T": T, "M": M, "dt": "int64"}
+    for dt in DTS[1:]:
+        yield {"f": "embed", "T": 6, "dim": 2, "tau": 1, "dt": dt, "col": False}
+        yield {"f": "boot", "T": 6, "d": 2, "M": 3, "metric": "supremum", "dt": dt}
+    for dt in ("float64", "float32"):
+        yield {"f": "rej", "T": 6, "M": 4, "dt": dt}
+    yield {"f": "boot", "T": 6, "d": 2, "M": -1, "metric": "supremum", "dt": "float64"}
+    yield {"f": "rej", "T": 6, "M": -1, "dt": "int64"}
+
+
+@entry("RecurrencePlot(static methods)", g_rp_static)
+def _e_rp_static(p, mk, rng, ctx):
+    from pyunicorn import timeseries
+    RP = timeseries.RecurrencePlot
+    if p["f"] == "embed":
+        ts = mk(gen(rng, (p["T"], 1) if p["col"] else (p["T"],), p["dt"]))
+        ctx.call("RecurrencePlot.embed_time_series", RP.embed_time_series, ts, p["dim"], p["tau"])
+    elif p["f"] == "boot":
+        emb = mk(gen(rng, (p["T"], p["d"]), p["dt"]))
+        ctx.call("RecurrencePlot.bootstrap_distance_matrix", RP.bootstrap_distance_matrix, emb, p["metric"], p["M"])
+    else:
+        dist = np.abs(gen(rng, (p["T"],), p["dt"]))
+        if dist.size:
+            dist[0] = 2            # a distribution without mass never terminates (hang, not C20)
+        ctx.call("RecurrencePlot.rejection_sampling", RP.rejection_sampling, mk(dist.astype(p["dt"])), p["M"])
+
+
+def g_crp(tier, rng):
+    ds = dims(tier, rng)
+    for Tx in ds:
+        for Ty in ds:
+            yield {"Tx": Tx, "Ty": Ty, "dx": 0, "dy": 0, "metric": "supremum", "mode": "threshold", "dt": "float64"}
+    for metric in ("supremum", "euclidean", "manhattan"):
+        for mode in ("threshold", "recurrence_rate"):
+            for dx, dy in ((1, 1), (2, 2), (3, 3), (2, 3), (3, 2), (0, 2)):
+                yield {"Tx": ds[4], "Ty": 3, "dx": dx, "dy": dy, "metric": metric, "mode": mode, "dt": "float64"}
+            for dim, tau in ((2, 1), (3, 2), (0, 1), (2, 0), (5, 3)):
+                yield {"Tx": ds[4], "Ty": 4, "dx": 0, "dy": 0, "metric": metric, "mode": mode, "dt": "float64",
+                       "dim": dim, "tau": tau}
+    for dt in DTS[1:]:
+        yield {"Tx": 5, "Ty": 3, "dx": 2, "dy": 2, "metric": "supremum", "mode": "threshold", "dt": dt}
+
+
+@entry("CrossRecurrencePlot", g_crp)
+def _e_crp(p, mk, rng, ctx):
+    from pyunicorn import timeseries
+    x = mk(_series(rng, p["Tx"], p["dx"], p["dt"]))
+    y = mk(_series(rng, p["Ty"], p["dy"], p["dt"]))
+    kw = {p["mode"]: 0.8 if p["mode"] == "threshold" else 0.3}
+    if "dim" in p:
+        kw.update(dim=p["dim"], tau=p["tau"])
+    c = ctx.call("CrossRecurrencePlot.__init__[%s]" % p["metric"], timeseries.CrossRecurrencePlot, x, y,
+                 metric=p["metric"], silence_level=3, **kw)
+    if c is FAILED:
+        return
+    ctx.call("CrossRecurrencePlot.recurrence_matrix", c.recurrence_matrix)
+    ctx.call("CrossRecurrencePlot.cross_recurrence_rate", c.cross_recurrence_rate)
+    for m in ("manhattan", "euclidean", "supremum"):
+        ctx.call("CrossRecurrencePlot.distance_matrix", c.distance_matrix, m)
+
+
+def g_derived(tier, rng):
+    ds = dims(tier, rng)
+    for T in ds:
+        for cls in ("RecurrenceNetwork", "JointRecurrencePlot", "JointRecurrenceNetwork",
+                    "InterSystemRecurrenceNetwork"):
+            for d in (0, 2):
+                yield {"cls": cls, "T": T, "Ty": T, "d": d, "lag": 0}
+        yield {"cls": "JointRecurrencePlot", "T": T, "Ty": T, "d": 0, "lag": 1}
+        yield {"cls": "JointRecurrencePlot", "T": T, "Ty": T, "d": 0, "lag": -1}
+        yield {"cls": "JointRecurrencePlot", "T": T, "Ty": T + 1, "d": 0, "lag": 0}
+        yield {"cls": "JointRecurrenceNetwork", "T": T, "Ty": T, "d": 0, "lag": T}
+        yield {"cls": "InterSystemRecurrenceNetwork", "T": T, "Ty": T + 2, "d": 0, "lag": 0}
+        yield {"cls": "InterSystemRecurrenceNetwork", "T": T, "Ty": 1, "d": 2, "lag": 0}
+
+
+@entry("derived recurrence classes", g_derived)
+def _e_derived(p, mk, rng, ctx):
+    from pyunicorn import timeseries
+    x = mk(_series(rng, p["T"], p["d"], "float64"))
+    y = mk(_series(rng, p["Ty"], p["d"], "float64"))
+    cls = p["cls"]
+    C = getattr(timeseries, cls)
+    if cls == "RecurrenceNetwork":
+        o = ctx.call(cls + ".__init__", C, x, threshold=0.8, silence_level=3)
+    elif cls.startswith("Joint"):
+        o = ctx.call(cls + ".__init__", C, x, y, threshold=(0.8, 0.8), lag=p["lag"], silence_level=3)
+    else:
+        o = ctx.call(cls + ".__init__", C, x, y, threshold=(0.8, 0.8, 0.8), silence_level=3)
+    if o is FAILED:
+        return
+    if cls.endswith("Plot"):
+        ctx.call(cls + ".recurrence_matrix", o.recurrence_matrix)
+        ctx.call(cls + ".diagline_dist", o.diagline_dist)
+        ctx.call(cls + ".vertline_dist", o.vertline_dist)
+    else:
+        ctx.call(cls + ".adjacency", lambda: o.adjacency)
+
+
+def g_surr_test(tier, rng):
+    for N, T in pairs(tier, rng):
+        for nb in ((32,) if tier == "quick" else (32, 2)):
+            yield {"N": N, "T": T, "sN": N, "sT": T, "nb": nb, "dt": "float64"}
+    for T, N in some_shapes(tier, rng):
+        for nb in (0, 1, 2, 3, -1):
+            yield {"N": N, "T": T, "sN": N, "sT": T, "nb": nb, "dt": "float64"}
+        for dN, dT in ((-1, 0), (0, -1), (1, 0), (0, 1), (-1, 1)):
+            yield {"N": N, "T": T, "sN": max(N + dN, 0), "sT": max(T + dT, 0), "nb": 4, "dt": "float64"}
+        yield {"N": N, "T": T, "sN": T, "sT": N, "nb": 4, "dt": "float64"}
+        yield {"N": N, "T": T, "sN": N * T, "sT": 1, "nb": 4, "dt": "float64"}
+        yield {"N": N, "T": T, "sN": 0, "sT": 0, "nb": 4, "dt": "float64"}
+        for dt in DTS[1:]:
+            yield {"N": N, "T": T, "sN": N, "sT": T, "nb": 4, "dt": dt}
+        for fl in ("const", "nan", "big", "ties"):
+            yield {"N": N, "T": T, "sN": N, "sT": T, "nb": 4, "dt": "float64", "fl": fl}
+
+
+@entry("Surrogates.test_matrices", g_surr_test)
+def _e_surr_test(p, mk, rng, ctx):
+    from pyunicorn import timeseries
+    S = timeseries.Surrogates
+    o = mk(gen(rng, (p["N"], p["T"]), p["dt"], p.get("fl", "rand")))
+    s = mk(gen(rng, (p["sN"], p["sT"]), p["dt"]))
+    ctx.call("Surrogates.test_pearson_correlation", S.test_pearson_correlation, o, s)
+    ctx.call("Surrogates.test_mutual_information", S.test_mutual_information, o, s, n_bins=p["nb"])
+
+
+def g_surr(tier, rng):
+    for N, T in pairs(tier, rng):
+        for dim, delay in ((1, 1), (2, 1), (3, 2)) if tier == "quick" else ((1, 1), (2, 1), (3, 2), (2, 2), (1, 0)):
+            yield {"N": N, "T": T, "dim": dim, "delay": delay, "dt": "float64"}
+    for T, N in some_shapes(tier, rng):
+        for dim, delay in ((0, 1), (2, 0), (2, -1), (T, 1), (T + 1, 1), (2, T)):
+            yield {"N": N, "T": T, "dim": dim, "delay": delay, "dt": "float64"}
+        for dt in DTS[1:]:
+            yield {"N": N, "T": T, "dim": 2, "delay": 1, "dt": dt}
+        for fl in ("const", "ties"):
+            yield {"N": N, "T": T, "dim": 2, "delay": 1, "dt": "float64", "fl": fl}
+
+
+@entry("Surrogates.twin_surrogates", g_surr)
+def _e_surr(p, mk, rng, ctx):
+    from pyunicorn import timeseries
+    S = timeseries.Surrogates
+    data = mk(gen(rng, (p["N"], p["T"]), p["dt"], p.get("fl", "rand")))
+    emb = ctx.call("Surrogates.embed_time_series_array", S.embed_time_series_array, data, p["dim"], p["delay"],
+                   silence_level=3)
+    if emb is not FAILED and emb.shape[0]:
+        ctx.call("Surrogates.recurrence_plot", S.recurrence_plot, mk(emb[0]), 0.8, silence_level=3)
+    s = ctx.call("Surrogates.__init__", S, data, silence_level=3)
+    if s is FAILED:
+        return
+    for md in (7, 0):
+        ctx.call("Surrogates.twin_surrogates", s.twin_surrogates, p["dim"], p["delay"], 0.8, min_dist=md)
+    if emb is not FAILED:
+        # public embedding setter, then twins() on an embedding that need not match original_data
+        for shape in (emb.shape, (emb.shape[0] + 1, max(emb.shape[1] - 1, 0), emb.shape[2])):
+            s2 = S(data, silence_level=3)
+            s2.embedding = mk(gen(rng, shape, "float64"))
+            ctx.call("Surrogates.twins", s2.twins, 0.8, min_dist=1)
+
+
+def g_vg(tier, rng):
+    for T in dims(tier, rng):
+        for hor in (False, True):
+            for mv in (False, True):
+                yield {"T": T, "hor": hor, "mv": mv, "tim": "none", "dt": "float64"}
+        for tim in ("ok", "short", "long", "equal", "desc"):
+            yield {"T": T, "hor": False, "mv": False, "tim": tim, "dt": "float64"}
+            yield {"T": T, "hor": False, "mv": True, "tim": tim, "dt": "float64"}
+    for dt in DTS[1:]:
+        yield {"T": 7, "hor": False, "mv": False, "tim": "none", "dt": dt}
+        yield {"T": 7, "hor": True, "mv": False, "tim": "none", "dt": dt}
+    for fl in ("const", "ties", "big"):
+        yield {"T": 7, "hor": False, "mv": False, "tim": "none", "dt": "float64", "fl": fl}
+        yield {"T": 7, "hor": True, "mv": False, "tim": "none", "dt": "float64", "fl": fl}
+    yield {"T": 6, "hor": False, "mv": False, "tim": "none", "dt": "float64", "two_d": True}
+
+
+@entry("VisibilityGraph", g_vg)
+def _e_vg(p, mk, rng, ctx):
+    from pyunicorn import timeseries
+    T = p["T"]
+    ts = gen(rng, (T, 1) if p.get("two_d") else (T,), p["dt"], p.get("fl", "rand"))
+    if p["mv"] and ts.dtype.kind == "f" and T > 2:
+        ts[T // 2] = np.nan
+    tim = {"none": None, "ok": np.cumsum(rng.random_sample(T) + 0.1), "short": np.arange(max(T - 1, 0), dtype=float),
+           "long": np.arange(T + 2, dtype=float), "equal": np.ones(T), "desc": -np.arange(T, dtype=float)}[p["tim"]]
+    vg = ctx.call("VisibilityGraph.__init__[%s]" % ("horizontal" if p["hor"] else "natural"),
+                  timeseries.VisibilityGraph, mk(ts), timings=None if tim is None else mk(tim),
+                  missing_values=p["mv"], horizontal=p["hor"], silence_level=3)
+    if vg is FAILED:
+        return
+    ctx.call("VisibilityGraph.adjacency", lambda: vg.adjacency)
+    ctx.call("VisibilityGraph.retarded_local_clustering", vg.retarded_local_clustering)
+    ctx.call("VisibilityGraph.advanced_local_clustering", vg.advanced_local_clustering)
+
+
+# ----------------------------------------------------------------------------- main
+
+def main():
+    ap = argparse.ArgumentParser(add_help=False)
+    ap.add_argument("--case", default=None)
+    ap.add_argument("--cases-file", default=None)
+    ap.add_argument("--only", default=None, help="development aid: keep entries whose name contains this")
+    own, rest = ap.parse_known_args()
+    if own.cases_file:                                   # child of the parent below
+        with open(own.cases_file) as f:
+            child_main(json.load(f))
+    args = parse_args(rest)
+    if own.case:                                         # one named case, in this process
+        cases = [c for c in build_cases(args.tier, args.seed) if c["name"] in own.case.split(";")]
+        if not cases:
+            sys.stderr.write("no such case for tier=%s seed=%d\n" % (args.tier, args.seed))
+            sys.exit(3)
+        child_main(cases)
+    only = None
+    if args.replay:
+        with open(args.replay) as f:
+            w = json.load(f)
+        w = w.get("witness", w)
+        if w.get("entry") not in ENTRIES:
+            sys.stderr.write("replay: unknown entry %r\n" % (w.get("entry"),))
+            sys.exit(3)
+        only = [{"name": w.get("case") or case_name(w["entry"], w["params"]), "entry": w["entry"],
+                 "params": w["params"]}]
+    if own.only and only is None:
+        only = [c for c in build_cases(args.tier, args.seed) if own.only in c["entry"]]
+    parent_main(args, only)
+
+
+if __name__ == "__main__":
+    main()
